@@ -56,6 +56,15 @@ pub mod errors {
     pub use anyhow::{anyhow, Context, Error, Result};
 }
 
+// A reader that goes away (closed pipe, pager quit) is not an error: as for the main
+// rendering path, stop quietly.
+fn ignore_broken_pipe(result: std::io::Result<()>) -> std::io::Result<()> {
+    match result {
+        Err(error) if error.kind() == ErrorKind::BrokenPipe => Ok(()),
+        result => result,
+    }
+}
+
 #[cfg(not(tarpaulin_include))]
 fn main() -> std::io::Result<()> {
     // Do this first because both parsing all the input in `run_app()` and
@@ -86,10 +95,10 @@ pub fn run_app(
     let (call, opt) = cli::Opt::from_args_and_git_config(args, &env, assets);
 
     if let Call::Version(msg) = call {
-        writeln!(std::io::stdout(), "{}", msg.trim_end())?;
+        ignore_broken_pipe(writeln!(std::io::stdout(), "{}", msg.trim_end()))?;
         return Ok(0);
     } else if let Call::Help(msg) = call {
-        OutputType::oneshot_write(msg)?;
+        ignore_broken_pipe(OutputType::oneshot_write(msg))?;
         return Ok(0);
     } else if let Call::SubCommand(_, cmd) = &call {
         // Set before creating the Config, which already asks for the calling process
@@ -142,7 +151,7 @@ pub fn run_app(
     if _show_config {
         let stdout = io::stdout();
         let mut stdout = stdout.lock();
-        subcommands::show_config::show_config(&config, &mut stdout)?;
+        ignore_broken_pipe(subcommands::show_config::show_config(&config, &mut stdout))?;
         return Ok(0);
     }
 
